@@ -148,17 +148,21 @@ fn scan_disk(l: &mut LogInner) -> DiskSnap {
         let md = match e.metadata() { Ok(m) => m, Err(_) => continue };
         if md.is_dir() { continue; } // an obstacle put there by the harness (disk fault injection)
         let key = (md.len(), md.modified().unwrap_or(std::time::UNIX_EPOCH));
-        let idx = l.torrent.index_of_hash_name(&name);
+        let mut idx = l.torrent.index_of_hash_name(&name);
         if let Some((len, mt, ok)) = l.disk_cache.get(&name) {
             if *len == key.0 && *mt == key.1 && *ok {
-                if let Some(i) = idx { snap.valid.push(i); }
-                continue;
+                if let Some(i) = idx { snap.valid.push(i); continue; }
             }
         }
         let mut ok = false;
         let mut last: Option<Vec<u8>> = None;
         for attempt in 0..40 {
             let data = std::fs::read(e.path()).unwrap_or_default();
+            if idx.is_none() {
+                // a name this harness does not know: identify the piece by its content
+                let h = sha1(&data);
+                idx = l.torrent.hashes.iter().position(|x| *x == h);
+            }
             ok = match idx { Some(i) => sha1(&data) == l.torrent.hashes[i] && data == l.torrent.piece(i), None => false };
             if ok { break; }
             if attempt >= 3 && last.as_ref() == Some(&data) { break; } // stable and wrong
